@@ -598,7 +598,8 @@ Lemma add_new_mapping_inv L s k m :
   /\ (m_repeat m <> RNormal -> forall x, In x (held_of (snd r)) -> is_action x = false)
   /\ (exists A, act (snd r) = A ++ [m] /\ forall m', In m' A -> In m' (act s))
   /\ (absd s = [] -> forall x, In x (inp s) -> In x (inp (snd r)))
-  /\ (m_abs m = [] -> absd s = [] -> atrig s = None -> absd (snd r) = [] /\ atrig (snd r) = None).
+  /\ (m_abs m = [] -> absd s = [] -> atrig s = None -> absd (snd r) = [] /\ atrig (snd r) = None)
+  /\ (forall x, In x (absd (snd r)) -> In x (absd s) \/ In x (m_abs m)).
 Proof.
   intros I HmL Hwf Hk Hsup. unfold add_new_mapping.
   pose proof (flush_for_action_inv L s k m I) as R0. cbn zeta in R0.
@@ -668,11 +669,17 @@ Proof.
   { intros Hma Ha Ht. destruct Haux1 as [X1 [X2 _]], Haux2 as [Y1 [Y2 _]].
     unfold s5, s4, s3. rewrite Hma. sf. cbn [fold_left].
     destruct Haux0 as [[Z1 Z2]|[Z1 Z2]]; split; congruence. }
+  assert (Habs5 : forall x, In x (absd s5) -> In x (absd s) \/ In x (m_abs m)).
+  { intros x Hx. destruct Haux1 as [X1 _], Haux2 as [Y1 _].
+    assert (Hx' : In x (fold_left push_new (m_abs m) (absd s2))).
+    { unfold s5, s4, s3 in Hx. destruct (m_abs m); sf; exact Hx. }
+    apply In_fold_push_new in Hx'. destruct Hx' as [Hx'|Hx']; [|right; exact Hx'].
+    left. rewrite Y1, X1 in Hx'. destruct Haux0 as [[Z1 _]|[Z1 _]]; rewrite Z1 in Hx'; [exact Hx' | destruct Hx']. }
   destruct (m_repeat m) as [| |ks d iv].
   - cbn [fst snd]. split; [exact I5|]. split; [exact T5|]. split; [rewrite F1; exact Hinp_s2|].
     split; [intros t Ht Ha; specialize (Hpr t [] Ht Ha); rewrite app_nil_r in Hpr; exact Hpr|].
     split; [intros t Ht _; apply Hto5; exact Ht|]. split; [intros _; exact Hto5|].
-    split; [intros H; contradiction|]. split; [exact Hact5|]. split; [exact Hsup5 | exact Hclean5].
+    split; [intros H; contradiction|]. split; [exact Hact5|]. split; [exact Hsup5 |]. split; [exact Hclean5 | exact Habs5].
   - pose proof (release_all_action_keys_inv L _ I5) as R3. cbn zeta in R3.
     rewrite raak_set_inp in R3.
     destruct (release_all_action_keys is_action s5) as [e3 s6] eqn:E6. cbn [fst snd] in *.
@@ -686,7 +693,8 @@ Proof.
       destruct Hx as [Hx|Hx]; apply filter_In in Hx; destruct Hx as [_ Hx]; apply negb_true_iff in Hx; exact Hx.
     + rewrite Hact6. split; [exact Hact5|]. destruct Haux6 as [U1 [U2 _]]. sf.
       split; [intros Ha x Hx; apply Hsup5; assumption|].
-      intros Hma Ha Ht. destruct (Hclean5 Hma Ha Ht) as [C1 C2]. split; congruence.
+      split; [intros Hma Ha Ht; destruct (Hclean5 Hma Ha Ht) as [C1 C2]; split; congruence|].
+      intros x Hx. apply Habs5. rewrite <- U1. exact Hx.
   - pose proof (release_all_action_keys_inv L _ I5) as R3. cbn zeta in R3.
     rewrite raak_set_inp in R3.
     destruct (release_all_action_keys is_action s5) as [e3 s6] eqn:E6. cbn [fst snd] in *.
@@ -701,7 +709,8 @@ Proof.
       destruct Hx as [Hx|Hx]; apply filter_In in Hx; destruct Hx as [_ Hx]; apply negb_true_iff in Hx; exact Hx.
     + rewrite Hact6. split; [exact Hact5|]. destruct Haux6 as [U1 [U2 _]]. sf.
       split; [intros Ha x Hx; apply Hsup5; assumption|].
-      intros Hma Ha Ht. destruct (Hclean5 Hma Ha Ht) as [C1 C2]. split; congruence.
+      split; [intros Hma Ha Ht; destruct (Hclean5 Hma Ha Ht) as [C1 C2]; split; congruence|].
+      intros x Hx. apply Habs5. rewrite <- U1. exact Hx.
 Qed.
 
 (* ---------- newly_press ---------- *)
@@ -726,7 +735,8 @@ Lemma newly_press_inv L s k :
   /\ In k (inp (snd r))
   /\ (absd s = [] -> forall x, In x (inp s) -> In x (inp (snd r)))
   /\ ((forall m, In m L -> m_abs m = []) -> absd s = [] -> atrig s = None ->
-      absd (snd r) = [] /\ atrig (snd r) = None).
+      absd (snd r) = [] /\ atrig (snd r) = None)
+  /\ (forall x, In x (absd (snd r)) -> In x (absd s) \/ exists m, In m L /\ In x (m_abs m)).
 Proof.
   intros Hwf I Hk. unfold newly_press. cbn zeta.
   set (s1 := set_rtrig (set_absd s (remove_all k (absd s))) None).
@@ -735,6 +745,8 @@ Proof.
   assert (Hi1 : inp s1 = inp s) by reflexivity.
   assert (Ha1 : absd s = [] -> absd s1 = []) by (intros Ha; unfold s1; sf; rewrite Ha; reflexivity).
   assert (Ht1 : atrig s1 = atrig s) by reflexivity.
+  assert (Hab1 : forall x, In x (absd s1) -> In x (absd s)).
+  { intros x Hx. unfold s1 in Hx. sf. apply In_remove_all in Hx. tauto. }
   destruct (find _ (rev (group_of L k))) as [m|] eqn:Ef.
   - apply find_some in Ef. destruct Ef as [Hm Hsup]. apply in_rev in Hm. apply group_of_In in Hm.
     destruct Hm as [HmL Hfin].
@@ -746,24 +758,27 @@ Proof.
       intros _ Hsa. rewrite Hsa in Hs2. apply negb_true_iff, mem_false in Hs2. exact Hs2. }
     pose proof (add_new_mapping_inv L s1 k m I1 HmL (Hwf m HmL) Hk Hsup') as R. cbn zeta in R.
     destruct (add_new_mapping is_action s1 k m) as [[evs rep] s2]. cbn [fst snd] in *.
-    destruct R as [I2 [T2 [Hinp2 [_ [_ [_ [_ [_ [Hsup2 Hclean2]]]]]]]]].
-    split; [exact I2|]. split; [exact T2|]. sf. split; [|split; [|split]].
+    destruct R as [I2 [T2 [Hinp2 [_ [_ [_ [_ [_ [Hsup2 [Hclean2 Habs2]]]]]]]]]].
+    split; [exact I2|]. split; [exact T2|]. sf. split; [|split; [|split; [|split]]].
     + intros x Hx. apply in_app_or in Hx. destruct Hx as [Hx|[Hx|[]]]; [left; apply Hinp2; exact Hx | right; symmetry; exact Hx].
     + apply in_or_app. right. left. reflexivity.
     + intros Ha x Hx. apply in_or_app. left. apply (Hsup2 (Ha1 Ha)). exact Hx.
     + intros HL Ha Ht. apply (Hclean2 (HL m HmL) (Ha1 Ha)). congruence.
+    + intros x Hx. destruct (Habs2 x Hx) as [H|H]; [left; apply Hab1; exact H | right; exists m; split; assumption].
   - destruct (existsb (mentions k) (act s1)) eqn:Emen.
-    { cbn [fst snd]. split; [apply Inv_push_inp; assumption|]. split; [apply tr_ok_nil; apply seteq_refl|]. sf. split; [|split; [|split]].
+    { cbn [fst snd]. split; [apply Inv_push_inp; assumption|]. split; [apply tr_ok_nil; apply seteq_refl|]. sf. split; [|split; [|split; [|split]]].
       - intros x Hx. apply in_app_or in Hx. destruct Hx as [Hx|[Hx|[]]]; [left; exact Hx | right; symmetry; exact Hx].
       - apply in_or_app. right. left. reflexivity.
       - intros _ x Hx. apply in_or_app. left. exact Hx.
-      - intros _ Ha Ht. split; [apply Ha1; exact Ha | congruence]. }
+      - intros _ Ha Ht. split; [apply Ha1; exact Ha | congruence].
+      - intros x Hx. left. apply Hab1. exact Hx. }
     destruct (mem k (pass s1)) eqn:Epass.
-    { cbn [fst snd]. split; [apply Inv_push_inp; assumption|]. split; [apply tr_ok_nil; apply seteq_refl|]. sf. split; [|split; [|split]].
+    { cbn [fst snd]. split; [apply Inv_push_inp; assumption|]. split; [apply tr_ok_nil; apply seteq_refl|]. sf. split; [|split; [|split; [|split]]].
       - intros x Hx. apply in_app_or in Hx. destruct Hx as [Hx|[Hx|[]]]; [left; exact Hx | right; symmetry; exact Hx].
       - apply in_or_app. right. left. reflexivity.
       - intros _ x Hx. apply in_or_app. left. exact Hx.
-      - intros _ Ha Ht. split; [apply Ha1; exact Ha | congruence]. }
+      - intros _ Ha Ht. split; [apply Ha1; exact Ha | congruence].
+      - intros x Hx. left. apply Hab1. exact Hx. }
     (* pass-through *)
     assert (Hflush : exists e1 s2,
        (if is_action k then
@@ -774,7 +789,8 @@ Proof.
        /\ (forall x, In x (inp s2) -> In x (inp s1))
        /\ (forall m, In m (act s2) -> In m (act s1))
        /\ (absd s1 = [] -> forall x, In x (inp s1) -> In x (inp s2))
-       /\ (absd s1 = [] -> atrig s1 = None -> absd s2 = [] /\ atrig s2 = None)).
+       /\ (absd s1 = [] -> atrig s1 = None -> absd s2 = [] /\ atrig s2 = None)
+       /\ (forall x, In x (absd s2) -> In x (absd s1))).
     { destruct (is_action k).
       - pose proof (release_action_mappings_inv L s1 I1) as Ra. cbn zeta in Ra.
         destruct (release_action_mappings is_action s1) as [ea sa]. cbn [fst snd] in Ra.
@@ -783,13 +799,14 @@ Proof.
         destruct (release_absorbed_keys sa) as [eb sb]. cbn [fst snd] in Rb.
         destruct Rb as [Ib [Tb [_ [Hinpb [Hactb [Bb1 [Bb2 _]]]]]]].
         exists (ea ++ eb), sb. split; [reflexivity|]. split; [exact Ib|].
-        split; [eapply tr_ok_app; eassumption|]. split; [|split; [|split]].
+        split; [eapply tr_ok_app; eassumption|]. split; [|split; [|split; [|split]]].
         + intros x Hx. apply Hinpb in Hx. rewrite <- Hinpa. tauto.
         + intros m Hm. apply Hactb in Hm. rewrite <- Hacta. tauto.
         + intros Ha x Hx. apply Hinpb. rewrite Hinpa, Aa1, Ha. split; [exact Hx | intros []].
         + intros _ _. split; assumption.
+        + rewrite Bb1. intros x [].
       - exists [], s1. split; [reflexivity|]. split; [exact I1|]. split; [apply tr_ok_nil; apply seteq_refl|]. tauto. }
-    destruct Hflush as [e1 [s2 [Eq [I2 [T2 [Hinp2 [Hact2 [Hsup2 Hclean2]]]]]]]]. rewrite Eq. cbn [fst snd].
+    destruct Hflush as [e1 [s2 [Eq [I2 [T2 [Hinp2 [Hact2 [Hsup2 [Hclean2 Habs2]]]]]]]]]. rewrite Eq. cbn [fst snd].
     assert (Hk2 : ~ In k (inp s2)) by (intro H; apply Hk; rewrite <- Hi1; apply Hinp2; exact H).
     assert (Hnm : forall m, In m (act s2) -> ~ In k (m_from m) /\ ~ In k (m_to m)).
     { intros m Hm. apply Hact2 in Hm.
@@ -839,7 +856,8 @@ Proof.
     + sf. intros x Hx. apply in_app_or in Hx. destruct Hx as [Hx|[Hx|[]]]; [left; apply Hinp2; exact Hx | right; symmetry; exact Hx].
     + sf. split; [apply in_or_app; right; left; reflexivity|]. split.
       * intros Ha x Hx. apply in_or_app. left. apply (Hsup2 (Ha1 Ha)). exact Hx.
-      * intros _ Ha Ht. apply Hclean2; [apply Ha1; exact Ha | congruence].
+      * split; [intros _ Ha Ht; apply Hclean2; [apply Ha1; exact Ha | congruence]|].
+        intros x Hx. left. apply Hab1. apply Habs2. exact Hx.
 Qed.
 
 (* ---------- step, release_all ---------- *)
@@ -851,28 +869,29 @@ Lemma step_inv L s e :
   /\ (forall x, In x (inp (snd r)) -> In x (apply_ev (inp s) e))
   /\ (absd s = [] -> forall x, In x (apply_ev (inp s) e) -> In x (inp (snd r)))
   /\ ((forall m, In m L -> m_abs m = []) -> absd s = [] -> atrig s = None ->
-      absd (snd r) = [] /\ atrig (snd r) = None).
+      absd (snd r) = [] /\ atrig (snd r) = None)
+  /\ (forall x, In x (absd (snd r)) -> In x (absd s) \/ exists m, In m L /\ In x (m_abs m)).
 Proof.
   intros Hwf I. destruct e as [k|k]; cbn [step].
   - destruct (mem k (inp s)) eqn:Ek.
     + cbn [fst snd]. split; [exact I|]. split; [apply tr_ok_nil; apply seteq_refl|].
       split; [intros x Hx; apply In_apply_ev_press; left; exact Hx|].
-      split; [|intros _ Ha Ht; split; assumption].
+      split; [|split; [intros _ Ha Ht; split; assumption | intros x Hx; left; exact Hx]].
       intros _ x Hx. apply In_apply_ev_press in Hx. destruct Hx as [Hx|Hx]; [exact Hx | subst; apply mem_In; exact Ek].
     + apply mem_false in Ek. pose proof (newly_press_inv L s k Hwf I Ek) as R. cbn zeta in R.
-      destruct R as [I' [T [Hinp [Hk' [Hsup Hclean]]]]]. split; [exact I'|]. split; [exact T|].
+      destruct R as [I' [T [Hinp [Hk' [Hsup [Hclean Habs]]]]]]. split; [exact I'|]. split; [exact T|].
       split; [intros x Hx; apply In_apply_ev_press; apply Hinp; exact Hx|].
-      split; [|exact Hclean].
+      split; [|split; [exact Hclean | exact Habs]].
       intros Ha x Hx. apply In_apply_ev_press in Hx. destruct Hx as [Hx|Hx]; [apply Hsup; assumption | subst; exact Hk'].
   - destruct (mem k (inp s)) eqn:Ek.
     + rewrite newly_release_core. cbn [fst snd].
       pose proof (release_core_inv L k s I) as R. cbn zeta in R.
       destruct R as [I' [T [Hinp [_ [[X1 [X2 _]] _]]]]]. split; [exact I'|]. split; [exact T|].
       split; [intros x Hx; rewrite Hinp in Hx; apply In_apply_ev_release; apply In_remove_all; exact Hx|].
-      split; [|intros _ Ha Ht; split; congruence].
+      split; [|split; [intros _ Ha Ht; split; congruence | intros x Hx; left; rewrite <- X1; exact Hx]].
       intros _ x Hx. rewrite Hinp. apply In_remove_all. apply In_apply_ev_release. exact Hx.
     + cbn [fst snd]. split; [exact I|]. split; [apply tr_ok_nil; apply seteq_refl|].
-      split; [|split; [|intros _ Ha Ht; split; assumption]].
+      split; [|split; [|split; [intros _ Ha Ht; split; assumption | intros x Hx; left; exact Hx]]].
       * intros x Hx. apply In_apply_ev_release. split; [exact Hx|]. intro E. subst.
         apply mem_false in Ek. contradiction.
       * intros _ x Hx. apply In_apply_ev_release in Hx. tauto.
